@@ -279,4 +279,7 @@ Definition astep (a : apath) (o : pop) : apath * pret :=
   | PBin => (mkap (aelems a) (apost a) true (asep a) (aassign a) (anull a), RNum 0)
   | PClear _ => (keep (aelems a) [], RNum 0)
   | PCopy => (a, RNum 0)
+  | PSep sep asg =>
+    (mkap (aelems a) (apost a) (abin a) (match sep with Some c => c | None => asep a end)
+          (match asg with Some c => c | None => aassign a end) (anull a), RNum 0)
   end.
